@@ -94,7 +94,7 @@ pub(super) fn std_io() -> FunctionMap {
         let Some(builder) = format(fstring, args) else {
             return Err(ctx.error(1, "Incorrect Number Of Format Args", "Provide one list element for every `{}` in the format string", "Not enough values for the format string"))
         };
-        println!("{}", builder);
+        display!("{}\n", builder);
 
         Ok(Value::Null)
     });
